@@ -183,7 +183,7 @@ class MinGenSet():
             self.x_indexes, 
             name_prefix="pi", 
             lb=0, 
-            ub=self.total, 
+            ub=self.total * self.max_multiplicity, 
             var_type="integer" if self.weight_type == int else "continuous"
         )
 
